@@ -173,6 +173,23 @@ def check_grad(case, ctx):
         return (-at(2 * h, d) + 8 * at(h, d) - 8 * at(-h, d) + at(-2 * h, d)) / (12 * h)
 
     rel = 2e-4 if c["kind"] == "qcvar" else 1e-6
+
+    def qcvar_gradient_slack(d, h=1e-4):
+        import math as _m
+
+        def sample_at(step):
+            with torch.no_grad():
+                for p_, b_, di in zip(params, base, d):
+                    p_.copy_(b_ + step * di)
+                smp = hedger.compute_portfolio(deriv, hedge=hedge) - deriv.payoff()
+                for p_, b_ in zip(params, base):
+                    p_.copy_(b_)
+            return smp
+        up, dn, mid = sample_at(h), sample_at(-h), sample_at(0.0)
+        sens = float(((up - dn) / (2 * h)).abs().mean())
+        rng = float((mid - mid.mean()).max() - (mid - mid.mean()).min()) + 2e-8
+        prec = 1e-6 * 10 ** int(_m.log10(rng))
+        return 2.0 * c["lam"] * prec * sens
     used = 0
     gnorm = float(sum((g ** 2).sum() for g in grads)) ** 0.5
     dirs = []
@@ -204,9 +221,12 @@ def check_grad(case, ctx):
             continue
         auto = float(sum((g * x).sum() for g, x in zip(grads, d)))
         used += 1
-        # (quadratic CVaR: the error left by its bisection scales with the sensitivity of the whole sample, i.e. with the gradient norm,
-        # not with this particular directional derivative, which may be far smaller)
-        tol = rel * max(abs(auto), abs(f2), gnorm if c["kind"] == "qcvar" else 0.0) + 1e-9
+        tol = rel * max(abs(auto), abs(f2)) + 1e-9
+        if c["kind"] == "qcvar":
+            # a-priori bound of what the bisection leaves: omega is found to the precision p = 1e-6 * 10**int(log10(range)) of the call,
+            # and d/dx_i [omega + lam mean relu(-omega - x)^2] = -(2 lam / N) relu(-omega - x_i) moves by at most (2 lam / N) p with omega:
+            # the directional derivative is off by at most 2 lam p mean_i |d x_i / d theta . d| (the sample's own sensitivity, by differences)
+            tol += 2.0 * qcvar_gradient_slack(d)
         if not ctx.check(abs(auto - f2) <= tol, "C14/gradient",
                          f"{c['kind']}: autograd directional derivative {auto!r} vs finite differences {f2!r} "
                          f"(|diff| {abs(auto - f2):.3e} > {tol:.3e})", model=case["model"], inputs=case["inputs"]):
